@@ -265,6 +265,7 @@ func H_C19_admin() {
 	}
 	limit := verif.Uint32("limit")
 	stranger := verif.Bool("signed-by-someone-else")
+	prePaused := verif.Bool("two-protocols-already-paused") // (listings and exports of SEVERAL entries: their order)
 	replayTwiceOn(func(extra bool) *outcome {
 		o := &outcome{}
 		w := NewWorld(false)
@@ -276,6 +277,11 @@ func H_C19_admin() {
 		signer := authorityAddr.String()
 		if stranger {
 			signer = user1.String()
+		}
+		if prePaused {
+			must(w.K.Forwarder().SetPausedProtocol(w.Ctx, core.PROTOCOL_INTERNAL))
+			must(w.K.Forwarder().SetPausedProtocol(w.Ctx, core.PROTOCOL_HYPERLANE))
+			must(w.K.Executor().SetPausedAction(w.Ctx, core.ACTION_SWAP))
 		}
 		for _, st := range steps {
 			name := protoNames[st.name]
